@@ -1635,7 +1635,12 @@ func (b *Bitmap) unmarshalPilosaRoaring(data []byte) error {
 		// Unmarshal the op and apply it.
 		var opr op
 		if err := opr.UnmarshalBinary(buf); err != nil {
-			// FIXME(benbjohnson): return error with position so file can be trimmed.
+			if _, ok := err.(truncatedOpError); ok {
+				// The data ends inside the last entry: the process was
+				// killed while appending it. Every complete entry has
+				// been applied; report where the log should be cut.
+				return &TornOpLogError{Err: err, ValidLength: int64(len(data) - len(buf))}
+			}
 			return err
 		}
 
@@ -1651,6 +1656,26 @@ func (b *Bitmap) unmarshalPilosaRoaring(data []byte) error {
 
 	return nil
 }
+
+// TornOpLogError is returned when the data of a Pilosa roaring file ends in
+// the middle of its last op log entry, i.e. the process died while appending
+// it. All complete entries have been applied to the bitmap. ValidLength is the
+// length of the data up to and including the last complete entry; the owner of
+// the file should truncate it to that length before appending again.
+type TornOpLogError struct {
+	Err         error
+	ValidLength int64
+}
+
+func (e *TornOpLogError) Error() string {
+	return fmt.Sprintf("torn op log entry after %d bytes: %v", e.ValidLength, e.Err)
+}
+
+// truncatedOpError is returned by op.UnmarshalBinary when the data ends before
+// the op does.
+type truncatedOpError string
+
+func (e truncatedOpError) Error() string { return string(e) }
 
 // writeOp writes op to the OpWriter, if available.
 func (b *Bitmap) writeOp(op *op) error {
@@ -4453,7 +4478,9 @@ func (op *op) apply(b *Bitmap) (changed bool) {
 
 // WriteTo writes op to the w.
 func (op *op) WriteTo(w io.Writer) (n int64, err error) {
-	buf := make([]byte, op.encodeSize())
+	// The whole entry goes out in a single Write: a crash must not leave
+	// the header of a roaring op in the log without its payload.
+	buf := make([]byte, op.encodeSize(), op.size())
 
 	// Write type and value.
 	buf[0] = byte(op.typ)
@@ -4484,16 +4511,10 @@ func (op *op) WriteTo(w io.Writer) (n int64, err error) {
 	binary.LittleEndian.PutUint32(buf[9:13], h.Sum32())
 
 	// Write to writer.
-	nn, err := w.Write(buf)
-	if err != nil {
-		return int64(nn), err
-	}
 	if op.typ == 4 || op.typ == 5 {
-		var nn2 int
-		// separate write so we don't have to copy the whole thing
-		nn2, err = w.Write(op.roaring)
-		nn += nn2
+		buf = append(buf, op.roaring...)
 	}
+	nn, err := w.Write(buf)
 	return int64(nn), err
 }
 
@@ -4503,7 +4524,7 @@ var maxBatchSize = uint64(1 << 59)
 // UnmarshalBinary decodes data into an op.
 func (op *op) UnmarshalBinary(data []byte) error {
 	if len(data) < minOpSize {
-		return fmt.Errorf("op data out of bounds: len=%d", len(data))
+		return truncatedOpError(fmt.Sprintf("op data out of bounds: len=%d", len(data)))
 	}
 	statsHit("op/UnmarshalBinary")
 
@@ -4526,7 +4547,7 @@ func (op *op) UnmarshalBinary(data []byte) error {
 			return fmt.Errorf("maximum operation size exceeded")
 		}
 		if len(data) < int(13+op.value*8) {
-			return fmt.Errorf("op data truncated - expected %d, got %d", 13+op.value*8, len(data))
+			return truncatedOpError(fmt.Sprintf("op data truncated - expected %d, got %d", 13+op.value*8, len(data)))
 		}
 		_, _ = h.Write(data[13 : 13+op.value*8])
 		op.values = make([]uint64, op.value)
@@ -4537,7 +4558,7 @@ func (op *op) UnmarshalBinary(data []byte) error {
 		op.value = 0
 	case opTypeAddRoaring, opTypeRemoveRoaring:
 		if len(data) < int(13+4+op.value) {
-			return fmt.Errorf("op data truncated - expected %d, got %d", 13+op.value, len(data))
+			return truncatedOpError(fmt.Sprintf("op data truncated - expected %d, got %d", 13+4+op.value, len(data)))
 		}
 		op.opN = int(binary.LittleEndian.Uint32(data[13:17]))
 		op.roaring = data[17 : 17+op.value]
